@@ -3,7 +3,7 @@
    undefined-name map, workspace globals, IsCompleteNeedShow), run from file bytes by run_complete. *)
 From Coq Require Import List NArith ZArith Bool.
 From LH Require Import Base.Bytes Model.Lexer Model.Ast Model.Scope Model.Globals Model.Resolve Spec.LuaScope
-  Proofs.ResolveRun Proofs.ResolveBasics Proofs.ResolveWitness Proofs.ResolveFull Properties.C05.
+  Proofs.ResolveRun Proofs.ResolveBasics Proofs.ResolveWitness Proofs.ResolveFull Proofs.ResolveFixes Properties.C05.
 Import ListNotations.
 Local Open Scope N_scope.
 
@@ -27,19 +27,26 @@ Theorem C14_refuted_by_one_cursor : forall files f line col,
 Proof. exact complete_full_refuted_by. Qed.
 Print Assumptions C14_refuted_by_one_cursor.
 
-(* ---- "every visible local is offered" fails in class B5 (FindMinScope's early exit never reaches the scope) *)
+(* ---- "every visible local is offered" failed in class B5 (FindMinScope's early exit never reached the scope) *)
 (* a.lua: for i = 1, f(function(yy)\nreturn yy end),\ng(function() end) do end\n *)
 Definition w_B5_for_step_order : list (list N * list N) :=
   [([97; 46; 108; 117; 97], [102; 111; 114; 32; 105; 32; 61; 32; 49; 44; 32; 102; 40; 102; 117; 110; 99; 116; 105; 111; 110; 40; 121; 121; 41; 10; 114; 101; 116; 117; 114; 110; 32; 121; 121; 32; 101; 110; 100; 41; 44; 10; 103; 40; 102; 117; 110; 99; 116; 105; 111; 110; 40; 41; 32; 101; 110; 100; 41; 32; 100; 111; 32; 101; 110; 100; 10])].
-(* numeric for visits init, STEP, limit: a function scope of the step is stored before the function scopes of the limit, FindMinScope's early exit (`subScope.StartLine > line => break`) then never reaches a function in the limit that starts on an earlier line: its parameters/locals resolve to nothing and are not completed *)
-Theorem C14_B5_for_step_order_refuted : complete_deviates w_B5_for_step_order [97; 46; 108; 117; 97] 1 8 = true.
+(* B5, FIXED (fixes/C05-for-step-order.diff): numeric for visited init, STEP, limit: a function scope of the step was stored
+   before the function scopes of the limit, FindMinScope's early exit (`subScope.StartLine > line => break`) then never
+   reached a function in the limit that starts on an earlier line: its parameters/locals resolved to nothing and were not
+   completed.  The witness deviates for the code before the repair (`no_fixes`) and no longer for the code in /repo. *)
+Theorem C14_B5_for_step_order_refuted_before_fix : complete_deviates_fx no_fixes w_B5_for_step_order [97; 46; 108; 117; 97] 1 8 = true.
 Proof. vm_compute. reflexivity. Qed.
-Print Assumptions C14_B5_for_step_order_refuted.
+Print Assumptions C14_B5_for_step_order_refuted_before_fix.
+Theorem C14_B5_for_step_order_fixed : complete_deviates w_B5_for_step_order [97; 46; 108; 117; 97] 1 8 = false.
+Proof. vm_compute. reflexivity. Qed.
+Print Assumptions C14_B5_for_step_order_fixed.
 
-
-Theorem C14_complete_full_refuted : ~ C14_complete_full.
-Proof. exact (complete_full_refuted_by _ _ _ _ C14_B5_for_step_order_refuted). Qed.
-Print Assumptions C14_complete_full_refuted.
+(* the full statement was refuted for the code before the repair; for the code now in /repo no deviating cursor is
+   known (B5 was the only class of C14) - the proved parts are the theorems below, the rest is decided by the legs *)
+Theorem C14_complete_full_refuted_before_fix : ~ complete_full_stmt_fx no_fixes.
+Proof. exact (complete_full_refuted_by_fx _ _ _ _ _ C14_B5_for_step_order_refuted_before_fix). Qed.
+Print Assumptions C14_complete_full_refuted_before_fix.
 
 (* non-vacuity: at the end of every identifier USE of C05's example program (the program re-declares names, so the
    cursors on declarations are outside the property's quantifier: uniquely named declarations) the labels satisfy the property *)
@@ -60,12 +67,12 @@ Example C14_agreeing_example :
 Proof. vm_compute. repeat split; reflexivity. Qed.
 
 (* ==================================================================== positive theorems (agent position-bind)
-   Proofs/PositionBind*.v; guards as in Properties/C05.v (Laid2 includes shape_ok = class B5 excluded program-wide,
-   no_repoint = class B4 excluded program-wide). *)
+   Proofs/PositionBind*.v; guards as in Properties/C05.v (Laid2 includes shape_ok: list lengths only, class B5 is
+   repaired and no longer excluded; no_repoint = class B4 excluded program-wide). *)
 From LH Require Import Proofs.PositionBindBase Proofs.PositionBindFinal Proofs.PositionBindWitness.
 
 (* "every visible local is offered", model level: at every cursor column of every non-declaring identifier
-   occurrence o of a laid-out fragment program outside B4/B5, every local declaration that is in the environment of
+   occurrence o of a laid-out fragment program outside B4, every local declaration that is in the environment of
    Lua's binder at o (s_env o: all of them are declared before the cursor) is among the local labels that
    GetCompleteVar collects along FindMinScope's chain *)
 Theorem C14_complete_locals_partial : forall P,
@@ -97,7 +104,8 @@ Proof. vm_compute. repeat split. Qed.
      complete_guard W files f = file f parses and its chunk satisfies core_guards_b W (in_fragment, laid2_b W, no_repoint).
    No guard on the text: whatever prefix GetCompleteVar's text cut yields, every visible local that starts with it is
    offered (IsCompleteNeedShow keeps a name that starts with the prefix).  Missing for C14_complete_full: cursors on
-   declarations, the global labels, the second conjunct ("only those" is C14_labels_only_visible), classes B4 / B5. *)
+   declarations, the global labels, the second conjunct ("only those" is C14_labels_only_visible), class B4 (B5: repaired, the witness
+   program now satisfies complete_guard). *)
 From LH Require Import Proofs.ComposeBind Proofs.ComposeBindRun.
 
 (* model level: with the prefix filter *)
@@ -121,7 +129,7 @@ Example C14_complete_guard_nonvacuous :
   complete_guard 1000 [(a_lua, src_ok)] a_lua = true /\ complete_guard 1000 [(a_lua, src_core)] a_lua = true /\
   complete_guard 1000 [(a_lua, src_ok); (b_lua, src_core)] b_lua = true /\
   length (filter (fun o => negb (is_decl (s_role o))) (bind_file (chunk_of src_core))) = 29%nat /\
-  complete_guard 1000 w_B5_for_step_order a_lua = false.
+  complete_guard 1000 w_B5_for_step_order a_lua = true.
 Proof. vm_compute. repeat split; reflexivity. Qed.
 
 (* ================================================================== wide fragment (agent wide-fragment)
